@@ -282,6 +282,38 @@ def h_prio(case: int) -> bool:
     return ok
 
 
+# ---------------------------------------------------------------- hand-picked shapes outside the masked grammar
+def _t(d):
+    return odict((k, _t(v)) for k, v in d.items())
+
+
+EXPLICIT = [
+    # a rule WITHOUT children rules matches a block that has lines below it (no %global in force): the lines are uncovered
+    ("z\n", "", {"z": {"c": {}}}),
+    ("s *\n", "a\n", {"s 1": {"p": {"q": {}}}, "a": {}}),
+    ("b *\n    n *\n", "", {"b 1": {"n 1": {"c": {}}, "e": {}}}),
+    ("interface *\n", "a\n", {"interface X": {"mtu 9000": {}}, "a": {}}),
+    # the same row declared twice, the later occurrence childless and with other params (%global, %cant_delete, %prio)
+    ("b *\ns ~\n", "s ~ %global\n", {"b 1": {"s 1": {}}, "s 2": {}}),
+    ("b *\n    c\ns ~\n", "b *\ns ~ %global %cant_delete=1\n", {"b 1": {"s 1": {}, "undo s 1": {}, "c": {}}, "undo s 2": {}}),
+    ("b *\n    c\n", "b * %cant_delete=1\n", {"b 1": {"c": {}}, "undo b 1": {}}),
+    ("a %prio=2\n", "a\na ~ %global\n", {"a": {"c": {}}, "a 1": {}}),
+]
+
+
+def h_explicit(case: int) -> bool:
+    """
+    pre: 0 <= case < len(EXPLICIT)
+    post: _ == True
+    """
+    c = pick(case, len(EXPLICIT))
+    with NoTracing():
+        ta, tb, tree = EXPLICIT[c]
+        ok, detail, kind, nt = check_filter(ta, tb, _t(tree))
+        rt.record({"explicit": c}, ok, [c], detail=detail, fingerprint="C06:%s" % kind)
+    return ok
+
+
 # ---------------------------------------------------------------- E-Z3 side obligation: grammar is heuristic-free
 def z_disjoint():
     """local-direct vs global-direct vs reverse languages of the compiled grammar rules are pairwise disjoint at every level
@@ -333,7 +365,8 @@ def z_compiled():
     fails = 0
     texts = [[("ga", acl_of(i))] for i in range(0, NACL, 5)] + [[("ga", acl_text(0b1000000 | i))] for i in range(8)] + \
             [[("ga", acl_of(a)), ("gb", acl_of(b))] for (a, b) in DEEP_PAIRS] + [[("ga", acl_text(0b000010)), ("gb", OVERLAP)]] + \
-            [[("ga", "undox *\nundone\nb *\n    undock\n    undo c\n")], [("ga", acl_text(0b000010)), ("gb", TIE)]]
+            [[("ga", "undox *\nundone\nb *\n    undock\n    undo c\n")], [("ga", acl_text(0b000010)), ("gb", TIE)]] + \
+            [[("ga", a_), ("gb", b_)] for (a_, b_, _tr) in EXPLICIT if b_]
     lo, hi = rt.shard_range(len(texts))
     cache = {}
 
@@ -419,7 +452,8 @@ def plan(tier):
         dict(name="compiled.vs.reference", func="z_compiled", kind="py", shards=4, timeout=280 if q else 900),
         dict(name="deep", func="h_deep", shards=16 if q else 48, timeout=280 if q else 2400),
         dict(name="wide", func="h_wide", shards=16 if q else 32, timeout=280 if q else 2400),
-        dict(name="prio", func="h_prio", shards=4, timeout=280 if q else 900),
+        dict(name="prio", func="h_prio", shards=16, timeout=280 if q else 900),
+        dict(name="explicit", func="h_explicit", shards=1, timeout=120),
         dict(name="twin", func="h_twin", shards=1, timeout=60, expect="refuted"),
     ]
 
@@ -428,6 +462,10 @@ def replay(obligation, case):
     global SLOTS
     if "where" in case:
         return {"ok": False, "detail": case, "fingerprint": "C06:compiled-acl:mismatch"}
+    if "explicit" in case:
+        ta, tb, tree = EXPLICIT[case["explicit"]]
+        ok, detail, kind, _ = check_filter(ta, tb, _t(tree))
+        return {"ok": ok, "detail": detail, "fingerprint": "C06:%s" % kind}
     if case.get("prio"):
         tb = PB[case["b"]] if isinstance(PB[case["b"]], str) else acl_text(PB[case["b"]])
         ok, detail, kind, _ = check_filter(acl_text(0b1000000 | case["a"]), tb, unrank(PRIO_SLOTS, case["tree_idx"]))
